@@ -158,6 +158,29 @@ def run(tape, scenario):
         sub = type(tape)(replay=consumed)
         devs_f = build_devices(sub, terms_f, links, "c19", variants=True, var_factory=factory(terms_f))
 
+        if tape.chance("c19/devices-in-another-fast-group-before", 30):
+            # the same device objects were part of another fast group before, whose frame
+            # had one more terminal in front of theirs (another layout): its program was
+            # generated, then the group was given up
+            try:
+                from sim.pdfix import PDTerminal
+                from .c21 import make_fast_device
+                st0 = PDTerminal(env.bus, "Tfront", 900, 3 + tape.draw("c19/front-size", 9), 0,
+                                 n_fmmu=2)
+                env.bus.add_terminal(st0)
+                t0 = ebpf_terminal(ec_f, st0, True)
+                front = make_fast_device([dict(term=0, sm="in", pos=0, size="B")], [])()
+                front.ins, front.outs, front.consts = [], [], []
+                front.i0 = PacketVar(t0, SyncManager.IN, 0, "B")
+                pre = FastSyncGroup(ec_f, [front] + devs_f)
+                pre.allocate()
+                pre.packet_index = 6
+                pre.load()
+                ec_s.get_fmmu_addr()      # (the slow master has handed out a window as well)
+                world.count("c19/devices-were-in-another-fast-group-before")
+            except Exception as e:
+                viol("fast-group-cannot-be-generated", f"earlier group: {type(e).__name__}: {e}",
+                     exception=type(e).__name__)
         sg_s = SyncGroup(ec_s, devs_s)
         sg_s.allocate()
         payload0 = sg_s.packet.assemble(1000, 0x88A4)
